@@ -101,11 +101,26 @@ def print_axioms(prop, module, names, timeout=1200):
         res[m.group(1)] = []
     return res, out[-3000:]
 
-def leanchecker(modules, timeout=3000):
-    """independent re-check of the compiled .olean files (thorough tier); (ok, seconds, tail of output)"""
-    t0 = time.time()
-    p = subprocess.run(['lake', 'env', 'leanchecker'] + modules, cwd=LEAN, capture_output=True, text=True, timeout=timeout)
-    return p.returncode == 0, round(time.time() - t0, 1), (p.stdout + p.stderr)[-600:]
+def leanchecker(modules, timeout=3000, batch=12):
+    """independent re-check of the compiled .olean files (thorough tier), in batches so that the peak memory stays bounded
+    (one invocation on 75 modules was seen at 31 GB).  Returns (verdict, seconds, tail): verdict True = every batch
+    accepted, False = leanchecker REJECTED a module (exit code 1 with its message), None = inconclusive (killed by a
+    signal / out of memory / timed out): recorded, never counted as a rejection."""
+    t0 = time.time(); tail = ''; verdict = True
+    for i in range(0, len(modules), batch):
+        left = timeout - (time.time() - t0)
+        if left <= 0: return None, round(time.time() - t0, 1), 'time budget exhausted after %d modules' % i
+        try:
+            p = subprocess.run(['lake', 'env', 'leanchecker'] + modules[i:i + batch], cwd=LEAN, capture_output=True, text=True, timeout=left)
+        except subprocess.TimeoutExpired:
+            return None, round(time.time() - t0, 1), 'timed out'
+        out = (p.stdout + p.stderr)[-600:]
+        if p.returncode == 0: continue
+        if p.returncode < 0 or p.returncode in (137, 139, 143) or 'out of memory' in out.lower() or 'killed' in out.lower() or not out.strip():
+            verdict = None; tail = f'batch {i // batch}: leanchecker ended with code {p.returncode} without a verdict: ' + out
+            continue
+        return False, round(time.time() - t0, 1), out
+    return verdict, round(time.time() - t0, 1), tail
 
 LOOP_TMPL = '''{imports}
 /-! GENERATED by tools/check.py: model driver for {prop} (ops: {ops}). -/
